@@ -91,6 +91,29 @@ def constructors(tier):
     return out
 
 
+def c11_zero_duration_pass(report, tier):
+    """The exported Stim program of a modifier-applied library circuit is the same before and after flatten() ALSO when one of the
+    global durations is exactly 0 (seeded change C11-m8: the exporter takes 'duration 0' for 'empty' and drops a nested block of
+    zero-length operations — the flat export keeps them).  Small inputs only (qec_cycles <= 2, full constructor: outside the input
+    classes of the open findings R5 / R25); SHIFT_COORDS lines are left out of the comparison as in the main pass."""
+    a = progs.api()
+    n = 0
+    for label, inp, build, in_class in constructors(tier):
+        if inp['qec_cycles'] > 2 or label.endswith('_simplified'):
+            continue
+        for key in 'RMF':
+            vals = {a.GK[k]: (0.0 if k == key else v) for k, v in zip('RMFS', (2.0, 1.0, 1.0, 2.0))}
+            with a.rd.temporary_override_get_registry_at(vals):
+                c = build().apply_modifiers()
+                before = no_shift_stim(observe(c)[2])
+                after = no_shift_stim(observe(c.flatten())[2])
+            n += 1
+            if before != after:
+                report('library circuit: exported Stim program differs before/after flatten under a zero global duration',
+                       {'constructor': label, 'input': inp, 'zero': key, 'instructions_before': len(before), 'instructions_after': len(after)})
+    return n
+
+
 def c06_library(oc, tier, seed):
     """unrolled listing == n-fold concatenation (by signature)."""
     prop = 'C06'
@@ -222,4 +245,5 @@ def c11_library(oc, tier, seed):
             # and no nesting with a count survives (each round was unrolled before it was flattened)
             if any(x.nr_of_repetitions != 1 for x in multi.composite_operations):
                 report('multi-round constructor: a repetition count survives', {'input': {'data_qubits': d, 'rounds': rounds}})
-    return {'library_cases': rows}
+        nz = c11_zero_duration_pass(report, tier)
+    return {'library_cases': rows, 'library_zero_duration_cases': nz}
